@@ -163,7 +163,9 @@ func loadRepo(dir string, o loadOpts) (*Ctx, error) {
 	seen := map[*ssa.Function]bool{}
 	var add func(fn *ssa.Function)
 	add = func(fn *ssa.Function) {
-		if fn == nil || seen[fn] || fn.Synthetic != "" {
+		// go/ssa lowers `for x := range seqFunc` bodies into synthetic yield
+		// closures: they are source code and must be analysed.
+		if fn == nil || seen[fn] || (fn.Synthetic != "" && fn.Synthetic != "range-over-func yield") {
 			return
 		}
 		seen[fn] = true
